@@ -31,8 +31,9 @@ const SPECIALS: [&str; 4] = ["<unk>", "<bos>", "<eos>", "<pad>"];
 const UNK: &str = "<unk>";
 const PAD: &str = "<pad>";
 
-fn affixes() -> [(Vec<&'static str>, Vec<&'static str>); 3] {
-    [(vec![], vec![]), (vec!["<bos>"], vec!["<eos>"]), (vec!["<bos>", "<bos>"], vec!["<eos>", "<pad>"])]
+/// prefix / suffix lists, including lists of different lengths
+fn affixes() -> [(Vec<&'static str>, Vec<&'static str>); 4] {
+    [(vec![], vec![]), (vec!["<bos>"], vec!["<eos>"]), (vec!["<bos>", "<bos>"], vec!["<eos>"]), (vec![], vec!["<eos>", "<pad>"])]
 }
 
 // ---------------------------------------------------------------------------------------------
@@ -531,11 +532,11 @@ fn main() {
     run.bounds.insert("special_tokens".into(), json!(SPECIALS));
     run.bounds.insert(
         "byte_configs".into(),
-        json!({"count": bcfgs.len(), "grid": "use_graphemes {f,t} x groups {bytes,code_points} x pad_to_multiple_of {None,128} x prefix/suffix {[]/[], [bos]/[eos], [bos,bos]/[eos,pad]}", "ignore_special_tokens": [false, true]}),
+        json!({"count": bcfgs.len(), "grid": "use_graphemes {f,t} x groups {bytes,code_points} x pad_to_multiple_of {None,128} x prefix/suffix {[]/[], [bos]/[eos], [bos,bos]/[eos], []/[eos,pad]}", "ignore_special_tokens": [false, true]}),
     );
     run.bounds.insert(
         "char_configs".into(),
-        json!({"count": ccfgs.len(), "grid": "use_graphemes {f,t} x prefix/suffix {[]/[], [bos]/[eos], [bos,bos]/[eos,pad]}, unk_token <unk>", "ignore_special_tokens": [false, true]}),
+        json!({"count": ccfgs.len(), "grid": "use_graphemes {f,t} x prefix/suffix {[]/[], [bos]/[eos], [bos,bos]/[eos], []/[eos,pad]}, unk_token <unk>", "ignore_special_tokens": [false, true]}),
     );
     run.bounds.insert("units".into(), json!(space.units()));
     run.extra.insert(
